@@ -114,7 +114,7 @@ def correspondence(ctx: Ctx):
 
     rng = ctx.rng
     G = lambda t: tensor_groups(t)  # noqa: E731
-    n = ctx.budget(3, 30)
+    n = ctx.budget(3, 90)
     # ---- complex_multiplication (same shapes + broadcasting pairs) / conjugate
     for _ in range(60 * n):
         sa = _cshape(rng)
